@@ -111,7 +111,7 @@ impl Prop for C05P {
     }
     fn plan(&self, tier: Tier, _seed: u64) -> Plan {
         let mut p = Plan::new(
-            vec![sec("pinned", 200), sec("explicit-programs", tier.pick(20_000, 400_000)), sec("elaboration-of-accepted-programs", tier.pick(15_000, 300_000)), crate::fw::sec_ex("small-explicit-programs-exhaustive", crate::gen_small::total_upto(tier.pick(5, 6)).div_ceil(256))],
+            vec![sec("pinned", 200), sec("explicit-programs", tier.pick(40_000, 400_000)), sec("elaboration-of-accepted-programs", tier.pick(30_000, 300_000)), crate::fw::sec_ex("small-explicit-programs-exhaustive", crate::gen_small::total_upto(tier.pick(5, 6)).div_ceil(256))],
             "type-directed generation of fully annotated well-typed programs (polymorphic, higher-order, dependent function types, recursive and mutually recursive groups of 1-5 definitions, forward type aliases, type-level redexes/conditionals/definitions in annotations, integers beyond 64 bits), printed with varied parenthesisation and layout; each must be accepted with a type convertible to the reference checker's and to the intended one; every fully annotated source program of at most 5 (quick) / 6 (thorough) nodes that the reference accepts must be accepted too; for every accepted program of any generator (explicit, inferred, syntactic) the elaborated term is compared with the parse output, holes of the source being the only wildcard; non-trivial = distinct accepted program",
         );
         p.assumptions = vec![
